@@ -14,6 +14,9 @@ use crate::operator::EvalError;
 #[derive(Clone, Copy)]
 pub enum FunctionWrapper {
     Float1(fn(f64) -> f64),
+    /// A function that maps integers to integers: an integer argument (or text holding one) is
+    /// answered exactly by the first function, anything else by the second, as for `Float1`
+    Num1(fn(i64) -> Option<i64>, fn(f64) -> f64),
     Float2(fn(f64, f64) -> f64),
     String1(fn(&str) -> Result<data::Value, EvalError>),
     String2(fn(&str, &str) -> Result<data::Value, EvalError>),
@@ -79,6 +82,21 @@ impl FunctionContainer {
     pub fn eval_func(&self, args: &[data::Value]) -> Result<data::Value, EvalError> {
         match self.func {
             FunctionWrapper::Float1(func) => self.eval1(func, args),
+            FunctionWrapper::Num1(int_func, float_func) => {
+                // integers beyond 2^53 are not doubles: do not send them through one
+                let exact = match args {
+                    [data::Value::Int(i)] => int_func(*i),
+                    [data::Value::Str(s)] => match data::Value::from_string(s.as_str()) {
+                        data::Value::Int(i) => int_func(i),
+                        _ => None,
+                    },
+                    _ => None,
+                };
+                match exact {
+                    Some(i) => Ok(data::Value::Int(i)),
+                    None => self.eval1(float_func, args),
+                }
+            }
             FunctionWrapper::Float2(func) => self.eval2(func, args),
             FunctionWrapper::String1(func) => {
                 if let [arg0] = args {
@@ -277,23 +295,23 @@ lazy_static! {
     pub static ref FUNC_MAP: HashMap<&'static str, FunctionContainer> = {
         [
             // numeric
-            FunctionContainer::new("abs", FunctionWrapper::Float1(f64::abs)),
+            FunctionContainer::new("abs", FunctionWrapper::Num1(i64::checked_abs, f64::abs)),
             FunctionContainer::new("acos", FunctionWrapper::Float1(f64::acos)),
             FunctionContainer::new("asin", FunctionWrapper::Float1(f64::asin)),
             FunctionContainer::new("atan", FunctionWrapper::Float1(f64::atan)),
             FunctionContainer::new("atan2", FunctionWrapper::Float2(f64::atan2)),
             FunctionContainer::new("cbrt", FunctionWrapper::Float1(f64::cbrt)),
-            FunctionContainer::new("ceil", FunctionWrapper::Float1(f64::ceil)),
+            FunctionContainer::new("ceil", FunctionWrapper::Num1(Some, f64::ceil)),
             FunctionContainer::new("cos", FunctionWrapper::Float1(f64::cos)),
             FunctionContainer::new("cosh", FunctionWrapper::Float1(f64::cosh)),
             FunctionContainer::new("exp", FunctionWrapper::Float1(f64::exp)),
             FunctionContainer::new("expm1", FunctionWrapper::Float1(f64::exp_m1)),
-            FunctionContainer::new("floor", FunctionWrapper::Float1(f64::floor)),
+            FunctionContainer::new("floor", FunctionWrapper::Num1(Some, f64::floor)),
             FunctionContainer::new("hypot", FunctionWrapper::Float2(f64::hypot)),
             FunctionContainer::new("log", FunctionWrapper::Float1(f64::ln)),
             FunctionContainer::new("log10", FunctionWrapper::Float1(f64::log10)),
             FunctionContainer::new("log1p", FunctionWrapper::Float1(f64::ln_1p)),
-            FunctionContainer::new("round", FunctionWrapper::Float1(f64::round)),
+            FunctionContainer::new("round", FunctionWrapper::Num1(Some, f64::round)),
             FunctionContainer::new("sin", FunctionWrapper::Float1(f64::sin)),
             FunctionContainer::new("sinh", FunctionWrapper::Float1(f64::sinh)),
             FunctionContainer::new("sqrt", FunctionWrapper::Float1(f64::sqrt)),
@@ -314,7 +332,7 @@ lazy_static! {
             FunctionContainer::new("isEmpty", FunctionWrapper::Generic(is_empty)),
             FunctionContainer::new("isBlank", FunctionWrapper::Generic(is_blank)),
             FunctionContainer::new("isNumeric", FunctionWrapper::Generic(is_numeric)),
-            FunctionContainer::new("num", FunctionWrapper::Float1(num)),
+            FunctionContainer::new("num", FunctionWrapper::Num1(Some, num)),
 
             FunctionContainer::new("now", FunctionWrapper::Generic(now)),
         ]
